@@ -64,9 +64,15 @@ type Options struct {
 	StrictRespType    string          `json:"strict_response_type,omitempty"`
 	StrictRespJSON    json.RawMessage `json:"strict_response_json,omitempty"`
 	StrictHandlerErr  bool            `json:"strict_handler_error,omitempty"`
+	StrictForeign     bool            `json:"strict_foreign,omitempty"` // strict middleware 0 lets the handler run and hands back a value that is no response object of the operation
 	Entry             string          `json:"entry,omitempty"`               // which generated entry point mounts the server: "" (with options), plain, from_mux, from_mux_base
 	Warmup            int             `json:"warmup,omitempty"`              // identical requests served on the same handler before the observed one
 	StrictWithOptions bool            `json:"strict_with_options,omitempty"` // net/http flavours: NewStrictHandlerWithOptions
+}
+
+// Foreign is a value no generated response interface accepts.
+type Foreign struct {
+	Note string
 }
 
 // Package is what every laboratory package registers with the driver.
